@@ -449,6 +449,29 @@ fn large_inputs(ctx: &Ctx) -> Vec<(Case, bool)> {
         ctx.label("large input");
         out.push((front_case("large", src.into_bytes(), expect, min_line, note), true));
     };
+    // A long token as the *unexpected* token of a syntax error (it is echoed
+    // in the diagnostic): every kind of token, multi-byte text at every
+    // alignment around 32 / 64 / 128 / 256 bytes.
+    for units in ["é", "日本", "🙂", "aé", "ab"] {
+        for target in [30usize, 62, 126, 254, 510] {
+            for shift in 0..5usize {
+                let pad = "x".repeat(shift);
+                let mut text = pad.clone();
+                while text.len() < target + 8 {
+                    text.push_str(units);
+                }
+                let toks = [
+                    format!("\"{text}\""), format!("$\"{text}\""), format!("$\"{text}${{v}}{text}\""),
+                    format!("id_{}", "long_name_".repeat(target / 10 + 1)), "1".repeat(target.min(18)),
+                ];
+                for tok in toks {
+                    push(format!("print(1)\nv := \"a\" {tok}\nprint(2)\n"), "reject", 2, "a long token where none is expected");
+                    push(format!("print(1)\nw := [1, 2 {tok}]\n"), "reject", 2, "a long token inside brackets where none is expected");
+                }
+                push(format!("v := \"z\"\nprint($\"${{v {}}}\")\n", format!("\\\"{text}\\\"").replace("\\\"", "\"")), "any", 0, "a long token where none is expected, inside an interpolation slot (parsed when evaluated)");
+            }
+        }
+    }
     for n in [31usize, 64, 65, 127, 128, 255, 256, 257, 1000, 5000] {
         let id: String = std::iter::repeat("ab_9").take(n / 4 + 1).collect::<String>()[..n].to_string();
         push(format!("{id} := 1\nprint({id})\n"), "any", 0, "long identifier");
